@@ -137,3 +137,14 @@ Example C17_ex_chain_and_guards :
   geom 2 3 = 7%nat /\ geom 2 4 = 15%nat /\
   new_simple 6 2 C17_ex_ids = Panic /\ new_simple 5 1 C17_ex_ids = Panic.
 Proof. vm_compute. repeat split. Qed.
+
+(* being childless is not the same as having height 1: with an incomplete last level a replica
+   on the second-to-last level can have no children (4 replicas, bf 2: replica 30 at position 2
+   has height 2, no children and an empty sub-tree); height 1 always means childless here *)
+Example C17_ex_childless_is_not_height_one :
+  C17_view 2 [10; 20; 30; 40] =
+  [Some (10, Ok (10, false), [20; 30], Some [20; 30; 40], Ok [], 3%nat, 3%nat);
+   Some (20, Ok (10, true), [40], Some [40], Ok [20; 30], 2%nat, 3%nat);
+   Some (30, Ok (10, true), [], Some [], Ok [20; 30], 2%nat, 3%nat);
+   Some (40, Ok (20, true), [], Some [], Ok [40], 1%nat, 3%nat)].
+Proof. vm_compute. reflexivity. Qed.
